@@ -1,6 +1,7 @@
 import Driver.CdrFileIO
 import ChfVerif.Model.Ber
 import ChfVerif.Spec.X690
+import ChfVerif.Spec.C05Domain
 /-
   line protocol of the `ber` stream.  Notation (shared with harness/cmd/ber.go):
     types:  b | i64 | i32 | e | o | B | n | O | s12 s22 s25 | P<t> | L<t> | W<t> | C[f;f] | S[f;f] | U
@@ -217,6 +218,11 @@ def berOp : Tok → String
         | some b => "ok " ++ hexRaw b
         | none => "none")
      | _, _, _ => "bad-op")
+  | ["dom", ty, params] =>
+    -- is (type, top-level parameters) in the domain of the round-trip law (Props.C05.C05_domain)?
+    (match pTy (ty.length + 1) ty.toList, pParams params.toList with
+     | some (t, []), some (p, []) => if inDomain t p then "in" else "out"
+     | _, _ => "bad-type")
   | "H" :: _mode :: items => berEach "R" items
   | "V" :: _goroutines :: _stride :: items => berEach "U" items
   | kind :: ty :: params :: rest =>
